@@ -80,8 +80,13 @@ func (p *parser) Next() *token {
 	return p.Token
 }
 
+const maxParseDepth = 100000 // each level is a few Go stack frames; an unbounded depth overflows the Go stack, which no recover can catch
+
 func (p *parser) Expression(rbp int, mask ...string) *token {
 	p.Depth++
+	if p.Depth > maxParseDepth {
+		panicf("nested too deeply")
+	}
 	tmp := p.mask
 	p.mask = mask
 	tok := p.doExpression(rbp)
